@@ -8,7 +8,7 @@ from . import C02
 from .lib import decision, guards, paths
 from .lib.mir import AnchorLost, Call
 
-CONFIGS_QUICK = ["A"]
+CONFIGS_QUICK = ["A", "R"]
 CONFIGS_THOROUGH = ["A", "R", "ASYNCSTD", "SMOL", "NIO", "GLOMMIO"]
 TECHNIQUE = ('def-use of the read count in the built MIR of Request::read (USED-RESULT); extent pairing of read_payload; loop membership of the stream read and '
              'provenance of the parse extent (MUSTPASS)')
@@ -211,7 +211,7 @@ def c06c(ck, prog):
     # receive loop) may depend on the read's result (count, error) and on counters, not on buffer content
     def _strip_read(d):
         out, i = "", 0
-        rx = re.compile(r"poll\(|(?<![A-Za-z_])read\(")
+        rx = re.compile(r"poll\(|(?<![A-Za-z_])read\(|(?<![A-Za-z_])is_empty\(|(?<![A-Za-z_])len\(")     # the read's result; lengths (of any part of the buffer) are not content
         while i < len(d):
             m = rx.search(d, i)
             if not m:
